@@ -334,6 +334,13 @@ class Interp:
     p_cosh = _elem("cosh")
     p_erf = _elem("erf")
 
+    def p_erfc(self, ins, params, eqn):
+        def f(v):
+            if isinstance(v, (SR, SC)):
+                return v.erfc()
+            return math.erfc(v)
+        return [np.asarray(np.frompyfunc(f, 1, 1)(_asobj(ins[0])), dtype=object)]
+
     def p_logistic(self, ins, params, eqn):
         return [np.asarray(np.frompyfunc(_sigmoid, 1, 1)(_asobj(ins[0])), dtype=object)]
 
@@ -652,6 +659,19 @@ class Interp:
 
     def p_custom_call(self, ins, params, eqn):
         closed = params.get("call_jaxpr") or params.get("fun_jaxpr")
+        fname = ""
+        try:
+            fname = (closed.jaxpr if hasattr(closed, "jaxpr") else closed).debug_info.func_name
+        except Exception:
+            pass
+        if fname == "log_ndtr" and any(is_sym(v) for v in ins):
+            # stub with the documented contract of jax.scipy.special.log_ndtr: log(ndtr(x)).  (The real body switches to
+            # asymptotic series in the tails -- a numerical approximation of the same function, outside exact arithmetic.)
+            from jax.scipy.special import ndtr
+            x = ins[-1]
+            cj = jax.make_jaxpr(ndtr)(np.zeros(np.shape(x)))
+            val = self.eval_closed(cj, x)[0]
+            return [np.asarray(np.frompyfunc(lambda v: sc._lift(v).log(), 1, 1)(_asobj(val)), dtype=object)]
         if closed is None:
             raise NotEncodable(f"{eqn.primitive.name}: no primal jaxpr")
         nconsts = 0
